@@ -11,6 +11,7 @@ import (
 	cidlink "github.com/ipld/go-ipld-prime/linking/cid"
 	"github.com/ipni/go-libipni/dagsync/ipnisync/head"
 	"github.com/libp2p/go-libp2p/core/peer"
+	"github.com/multiformats/go-multiaddr"
 	"pgregory.net/rapid"
 
 	"verif/h23/gen"
@@ -19,7 +20,7 @@ import (
 )
 
 type step struct {
-	Kind    string // honest | valid | foreign | cidswap | topicswap | sigflip | keyswap | emptypeer
+	Kind    string // honest | valid | foreign | cidswap | topicswap | sigflip | keyswap | emptypeer | foreignaddr | honestforeignaddr
 	Pos     int    // chain position the (base) head is signed for
 	SwapPos int    // position put into the head by cidswap
 	Signer  int    // key pool index for foreign / keyswap
@@ -37,7 +38,7 @@ func genCase(t *rapid.T) Case {
 	c := Case{N: rapid.IntRange(2, 5).Draw(t, "n"), Discovery: rapid.Bool().Draw(t, "discovery")}
 	ns := rapid.IntRange(1, 4).Draw(t, "nsteps")
 	for i := 0; i < ns; i++ {
-		s := step{Kind: rapid.SampledFrom([]string{"honest", "valid", "valid", "foreign", "cidswap", "cidswap", "topicswap", "sigflip", "keyswap", "emptypeer"}).Draw(t, "kind")}
+		s := step{Kind: rapid.SampledFrom([]string{"honest", "valid", "valid", "foreign", "cidswap", "cidswap", "topicswap", "sigflip", "keyswap", "emptypeer", "foreignaddr", "foreignaddr", "honestforeignaddr"}).Draw(t, "kind")}
 		s.Pos = rapid.IntRange(0, c.N-1).Draw(t, "pos")
 		if i > 0 && rapid.Bool().Draw(t, "reuse") {
 			s.Pos = c.Steps[rapid.IntRange(0, i-1).Draw(t, "reuseof")].Pos
@@ -95,8 +96,11 @@ func runCase(t *testing.T) func(Case) pbt.Result {
 				case "valid":
 					body, _ = mk(p.Chain[st.Pos], st.Topic, p.Key).Encode()
 					wantAccept = true
-				case "foreign": // validly signed by another identity
+				case "foreign", "foreignaddr": // validly signed by another identity
 					body, _ = mk(p.Chain[st.Pos], st.Topic, keys[st.Signer]).Encode()
+				case "honestforeignaddr":
+					body, _ = mk(p.Chain[st.Pos], st.Topic, p.Key).Encode()
+					wantAccept = true
 				case "cidswap": // valid head, CID replaced (signature kept)
 					sh := mk(p.Chain[st.Pos], st.Topic, p.Key)
 					if st.SwapPos == st.Pos {
@@ -130,6 +134,16 @@ func runCase(t *testing.T) func(Case) pbt.Result {
 				if st.Kind == "emptypeer" {
 					info = peer.AddrInfo{Addrs: info.Addrs}
 				}
+				foreignID := keys[st.Signer].ID
+				if st.Kind == "foreignaddr" || st.Kind == "honestforeignaddr" {
+					// the caller names publisher P; the address carries another identity's /p2p component (the
+					// identity that signed the head, for foreignaddr): the expected signer is still P
+					suffix := multiaddr.StringCast("/p2p/" + foreignID.String())
+					for i, a := range info.Addrs {
+						info.Addrs[i] = multiaddr.Join(a, suffix)
+					}
+				}
+				foreignLatest0 := s.Latest(foreignID)
 				latest0, ev0, req0, hk0 := s.Latest(p.ID), s.NEvents(), len(w.Requests()), s.NHooks()
 				got, err := s.S.SyncAdChain(ctx, info)
 				w.Settle()
@@ -168,6 +182,10 @@ func runCase(t *testing.T) func(Case) pbt.Result {
 						return
 					}
 				}
+				if s.Latest(foreignID) != foreignLatest0 {
+					res.Fail = fmt.Sprintf("%s: the sync for publisher %s was rejected but moved latest-sync of %s (the identity embedded in the address) to %s", what, p.ID, foreignID, s.Latest(foreignID))
+					return
+				}
 				if s.Latest(p.ID) != latest0 || s.NEvents() != ev0 || s.NHooks() != hk0 {
 					res.Fail = fmt.Sprintf("%s: rejected head changed state: latest %s -> %s, events %d -> %d, hooks %d -> %d", what, latest0, s.Latest(p.ID), ev0, s.NEvents(), hk0, s.NHooks())
 					return
@@ -180,6 +198,6 @@ func runCase(t *testing.T) func(Case) pbt.Result {
 
 func TestC03_Subscriber(t *testing.T) {
 	pbt.Run(t, pbt.Config{Prop: "C03", Unit: "TestC03_Subscriber", TrackCurrent: true,
-		Rule: "one real subscriber and one publisher (plain or discovery transport), 1..4 consecutive SyncAdChain calls on the same handler/syncer, each against a drawn head response: the publisher's honest head, a valid head for any chain position, a head validly signed by another identity, a valid head with the CID replaced (signature kept; often the very head a previous step accepted), topic changed, signature bit flipped, key or signature swapped with a foreign signer's, or a call with an empty peer ID; oracle: accepted iff valid and signed by the synced publisher (returns that CID, latest-sync = CID); otherwise error, no block request after the head request, latest-sync / events / hooks unchanged; empty peer ID rejected before any request. Non-trivial: a step that must be rejected; distinct by case.",
+		Rule: "one real subscriber and one publisher (plain or discovery transport), 1..4 consecutive SyncAdChain calls on the same handler/syncer, each against a drawn head response: the publisher's honest head, a valid head for any chain position, a head validly signed by another identity, a valid head with the CID replaced (signature kept; often the very head a previous step accepted), topic changed, signature bit flipped, key or signature swapped with a foreign signer's, a call with an empty peer ID, or a call that names the publisher but whose addresses carry another identity's /p2p component (with a head signed by that identity: must be rejected and leave that identity's latest-sync alone; with the publisher's own head: accepted); oracle: accepted iff valid and signed by the synced publisher (returns that CID, latest-sync = CID); otherwise error, no block request after the head request, latest-sync / events / hooks unchanged; empty peer ID rejected before any request. Non-trivial: a step that must be rejected; distinct by case.",
 	}, genCase, runCase(t))
 }
